@@ -50,11 +50,38 @@ class AnyEq:
         return "AnyEq(%r)" % (self.tag,)
 
 
+class Duck:
+    """a process body that is not a native generator but an object with the generator protocol (send / throw / close),
+    which the kernel explicitly accepts"""
+
+    __name__ = "duck_body"          # what every generator type (CPython, Cython) has; messages and reprs use it
+
+    def __init__(self, gen):
+        self._g = gen
+
+    def send(self, v):
+        return self._g.send(v)
+
+    def throw(self, *a):
+        return self._g.throw(*a)
+
+    def close(self):
+        return self._g.close()
+
+    def __next__(self):
+        return next(self._g)
+
+    def __iter__(self):
+        return self
+
+
 class K:
     """One execution of one lazily generated program."""
 
     def __init__(self, ch, ops, depth, nproc=2, maxproc=4, env=None, nevents=2, stop_at=None, reaction=True, probe_procs=True,
-                 falsy_causes=False, liberal_values=False):
+                 falsy_causes=False, liberal_values=False, probe_timeouts=True, duck=False):
+        self.duck = duck
+        self.probe_timeouts = probe_timeouts      # False: timeouts carry no callback of ours (an abandoned one has no callbacks at all)
         self.val = (lambda x: AnyEq(x)) if liberal_values else (lambda x: x)
         self.ch = ch
         self.ops = ops
@@ -110,7 +137,7 @@ class K:
         pid = len(self.procs)
         self.procs.append(None)
         self.alive.add(pid)
-        p = self.env.process(self.body(pid))
+        p = self.env.process(Duck(self.body(pid)) if self.duck and pid % 2 == 0 else self.body(pid))
         self.procs[pid] = p
         lab = ("p", pid)
         if self.probe_procs:
@@ -128,8 +155,11 @@ class K:
         self.outcome[lab] = (True, v)
         t = self.env.timeout(d, value=v)
         self.trigger(lab, self.env.now + d, NOR)
-        self.reg[lab] = ["probe"]
-        t.callbacks.append(self._probe(lab))
+        if self.probe_timeouts:
+            self.reg[lab] = ["probe"]
+            t.callbacks.append(self._probe(lab))
+        else:
+            self.reg[lab] = []
         return t, lab
 
     # ---- the lazily generated process body ---------------------------------------------------
@@ -159,7 +189,7 @@ class K:
             try:
                 v = yield evt
                 out = ("ok", v)
-            except (Err, Abort, StopProcess) as e:
+            except (Err, Abort, StopProcess, IndexError) as e:
                 out = ("exc", e.args)
                 exc = e
             except Interrupt as i:
@@ -198,6 +228,10 @@ class K:
             if kind == "raiseB":
                 self.finish(pid, False, (("bv", pid),))
                 raise Abort(("bv", pid))
+            if kind == "raiseIE":
+                # an ordinary bug in a process body (jobs[n] past the end): a failure like any other
+                self.finish(pid, False, (("iv", pid),))
+                raise IndexError(("iv", pid))
             if kind == "raiseSP":
                 # the exported StopProcess class is an ordinary exception for the kernel: the process fails with it
                 self.finish(pid, False, (("sp", pid),))
@@ -263,6 +297,23 @@ class K:
                     me = ("cb", self.nid)
                     self.reg[lab].append(me)
                     ev.callbacks.append(lambda event, me=me, lab=lab: self.L("cbk", lab, me))
+            elif kind == "CBI":
+                # a plain callback on a shared event that interrupts the peer (if it is still alive when the event is
+                # processed): an interrupt issued by no process at all
+                e = op[1]
+                lab = ("ev", e)
+                ev = self.events[e]
+                if ev.callbacks is not None:
+                    self.nid += 1
+                    me = ("cb", self.nid)
+                    self.reg[lab].append(me)
+                    o = (pid + 1) % len(self.procs)
+
+                    def cbi(event, me=me, lab=lab, o=o):
+                        self.L("cbk", lab, me)
+                        if o in self.alive:
+                            self.interrupt(None, o)
+                    ev.callbacks.append(cbi)
             elif kind == "I":
                 o = (pid + 1) % len(self.procs)
                 self.interrupt(pid, o)
@@ -284,12 +335,12 @@ class K:
         try:
             self.procs[o].interrupt(cause)
             if not legal:
-                self.bad.append(("refuse", "interrupt-of-%s-accepted" % ("self" if o == pid else "finished-process"), "p%d -> p%d" % (pid, o)))
+                self.bad.append(("refuse", "interrupt-of-%s-accepted" % ("self" if o == pid else "finished-process"), "p%s -> p%d" % (pid, o)))
             self.L("issue", pid, o, cause)
             self.trigger(cause, self.env.now, URG, victim=o)
         except RuntimeError:
             if legal:
-                self.bad.append(("refuse", "interrupt-of-live-process-refused", "p%d -> p%d (started: %s)" % (pid, o, o in self.started)))
+                self.bad.append(("refuse", "interrupt-of-live-process-refused%s" % ("" if pid is not None else "-when-issued-by-a-callback"), "p%s -> p%d (started: %s)" % (pid, o, o in self.started)))
             self.L("refused", pid, o)
 
     # ---- driving ---------------------------------------------------------------------------
@@ -315,7 +366,7 @@ class K:
                     break
         except BaseException as e:  # noqa
             self.crashed = (self.env.now, type(e).__name__, getattr(e, "args", ()), e)
-            self.L("crash", type(e).__name__, e.args if isinstance(e, (Err, Abort, Interrupt, StopProcess)) else ())
+            self.L("crash", type(e).__name__, e.args if isinstance(e, (Err, Abort, Interrupt, StopProcess, IndexError)) else ())
         return self
 
     def digest(self):
@@ -493,7 +544,7 @@ def check_delivery(k):
         if k.crashed is None:
             t, pay, label = allowed[0]
             out.append(("crash", "unhandled-failure-of-%s-passed-silently" % kindname(label), "failure of %r at %r, no process waiting" % (label, t)))
-        elif not any(k.crashed[0] == t and k.crashed[1] in ("Err", "Abort", "StopProcess") and tuple(k.crashed[2]) == tuple(pay) for (t, pay, label) in allowed):
+        elif not any(k.crashed[0] == t and k.crashed[1] in ("Err", "Abort", "StopProcess", "IndexError") and tuple(k.crashed[2]) == tuple(pay) for (t, pay, label) in allowed):
             out.append(("crash", "unhandled-failure-raised-wrongly", "expected one of %r, run raised %r" % ([(t, pay) for (t, pay, l) in allowed], k.crashed[:3])))
         return out, nontrivial
     if expect_crash is None:
@@ -503,7 +554,7 @@ def check_delivery(k):
         t, pay, label = expect_crash
         if k.crashed is None:
             out.append(("crash", "unhandled-failure-of-%s-passed-silently" % kindname(label), "failure of %r at %r, no process waiting" % (label, t)))
-        elif k.crashed[0] != t or k.crashed[1] not in ("Err", "Abort", "StopProcess") or tuple(k.crashed[2]) != tuple(pay):
+        elif k.crashed[0] != t or k.crashed[1] not in ("Err", "Abort", "StopProcess", "IndexError") or tuple(k.crashed[2]) != tuple(pay):
             out.append(("crash", "unhandled-failure-raised-wrongly", "expected Err%r at %r, run raised %r" % (pay, t, k.crashed[:3])))
     return out, nontrivial
 
